@@ -582,6 +582,9 @@ def impl(c):
                 out.append('!' + errname(e))
                 continue
             # the tuple the class says it hashes, read off the object; the oracle compares it with the case's integers
+            if not isinstance(z, (EUI, IPAddress, IPNetwork, IPRange)):
+                out.append('hash(x)=%d-without-TypeError' % hv)
+                continue
             cand = (z.version, int(z)) if isinstance(z, EUI) else z.key()
             try:
                 d = {cand: 1}
